@@ -664,14 +664,34 @@ class StmtMixin(CallMixin):
     def body_touches_ghost(self, body, g):
         for h in self.c.hooks:
             for act in h[2]:
-                if act[0] == "set" and act[1] == g:
+                if act[0] == "set" and act[1] == g and (h[0] == "yield" or self.body_may_call(body, h[1])):
                     return True
         for cm in self.c.calls:
-            if cm.ghost and g in cm.ghost:
+            if cm.ghost and g in cm.ghost and self.body_may_call(body, cm.pattern):
                 return True
         for n in body:
             for x in ast.walk(n):
                 if isinstance(x, ast.Name) and x.id == g:
+                    return True
+        return False
+
+    def body_may_call(self, body, pattern):
+        """Could a call matched by `pattern` (a call model or hook pattern) occur in this loop body? Over-approximation:
+        the call's text matches, or its bare name matches the pattern's last component (models are also found by
+        '<Class>.<method>' of the receiver); anything inlined or an iterator step counts as possible."""
+        from .exec_call import _match
+        pat = pattern.split("#")[0].split("/")[0]
+        if pat.startswith("iter:") or getattr(self.c, "inline", None):
+            return True
+        last = pat.split(".")[-1]
+        for n in body:
+            for x in ast.walk(n):
+                if not isinstance(x, ast.Call):
+                    continue
+                if _match(pat, ast.unparse(x.func)):
+                    return True
+                nm = x.func.attr if isinstance(x.func, ast.Attribute) else (x.func.id if isinstance(x.func, ast.Name) else None)
+                if nm is not None and (_match(last, nm) or _match(pat, nm)):
                     return True
         return False
 
@@ -698,6 +718,14 @@ class StmtMixin(CallMixin):
 
     def fields_named(self, f):
         return set((cn, f) for cn, cm in C.CLASSES.items() if f in cm.fields)
+
+    def is_exc_class_local(self, name):
+        """A local only ever assigned `Errors.for_code(...)` / `for_code(...)` holds an exception class."""
+        vals = [a.value for a in ast.walk(self.fnode) if isinstance(a, ast.Assign)
+                and any(isinstance(t, ast.Name) and t.id == name for t in a.targets)]
+        stores = [x for x in ast.walk(self.fnode) if isinstance(x, ast.Name) and x.id == name and isinstance(x.ctx, ast.Store)]
+        return bool(vals) and len(stores) == len(vals) and all(
+            isinstance(v, ast.Call) and ast.unparse(v.func).split(".")[-1] == "for_code" for v in vals)
 
     def body_write_set(self, body):
         """Over-approximation of the heap maps a loop body may write; None = unknown (whole frame)."""
@@ -749,6 +777,8 @@ class StmtMixin(CallMixin):
                                 head, _, fld = loc.rpartition(".")
                                 if head in C.CLASSES or head == "Future":
                                     ws.add((head, fld))
+                                elif c is None and head in ("self", "self_") and fld != "*":
+                                    ws |= self.fields_named(fld)    # a field of the receiver: every class with that field
                                 elif c is not None and head == "self":
                                     ws.add((c.self_cls, fld))
                                 elif c is not None and head.startswith("self.") and head.count(".") == 1:
@@ -765,6 +795,11 @@ class StmtMixin(CallMixin):
                                     "dict", "range", "enumerate", "repr", "str", "type", "create_future", "TopicPartition",
                                     "getattr", "frozenset", "bytes", "bytearray", "memoryview"):
                             continue
+                        b = self.c.binds.get(f.id)
+                        if isinstance(b, PyThing) and b.kind in ("tupctor", "opaquector"):
+                            continue            # value constructors bound by the contract: no heap effect
+                        if self.is_exc_class_local(f.id):
+                            continue            # error_type(): instantiating an exception class writes no field of ours
                         con = C.BY_FUNC.get((self.module.dotted, f.id))
                         if con is None or con.modifies_:
                             if f.id in self.exc_names():
@@ -973,13 +1008,14 @@ class StmtMixin(CallMixin):
             return {"G_i": V(INT, dv["i"].t + one)}
         if k == "set":
             sty = dv["set"].ty
+            # $dom: the set iterated over, as evaluated once when the loop was entered
             if phase == "init":
-                return {"G_done": V(sty, z3.K(sty.elem.sort(), False))}
+                return {"G_done": V(sty, z3.K(sty.elem.sort(), False)), "G_dom": dv["set"]}
             if phase == "head":
                 if "done" not in dv:
                     dv["done"] = self.fresh(sty, "done")
-                return {"G_done": dv["done"]}
-            return {"G_done": V(sty, z3.Store(dv["done"].t, dv["cur"].t, True))}
+                return {"G_done": dv["done"], "G_dom": dv["set"]}
+            return {"G_done": V(sty, z3.Store(dv["done"].t, dv["cur"].t, True)), "G_dom": dv["set"]}
         raise Unsupported("domain")
 
     def dom_done(self, dv, st):
